@@ -321,9 +321,15 @@ fn scan<const N: usize, H: HandN<N>>(run: &mut Run, mode: Mode, cfg: &ScanCfg) -
                 panic!("model forms disagree on {:?}: min-of-subsets {} direct {}", c, exp, direct);
             }
             let w = words_of_ci(c);
+            // second canonical order: sorted descending (the order the crate's own sort produces)
+            let mut wd = w;
+            wd.reverse();
             let r = guard(|| {
                 if !fast_ok::<N, H>(t, w, exp, mode, true) {
                     return Some(w);
+                }
+                if !fast_ok::<N, H>(t, wd, exp, mode, true) {
+                    return Some(wd);
                 }
                 for k in 0..cfg.orders {
                     let pi = mix2(seed ^ (0x51_0000 + k as u64), p) % nfact;
@@ -337,8 +343,8 @@ fn scan<const N: usize, H: HandN<N>>(run: &mut Run, mode: Mode, cfg: &ScanCfg) -
             });
             acc.hands += 1;
             acc.evals += match mode {
-                Mode::Value => H::entries().len() as u64 + cfg.orders as u64,
-                Mode::Witness => 1 + cfg.orders as u64,
+                Mode::Value => 2 * H::entries().len() as u64 + cfg.orders as u64,
+                Mode::Witness => 2 + cfg.orders as u64,
             };
             match r {
                 Ok(None) => {}
@@ -352,6 +358,9 @@ fn scan<const N: usize, H: HandN<N>>(run: &mut Run, mode: Mode, cfg: &ScanCfg) -
                 Err(_) => {
                     // a panic somewhere: find it with per-call guards
                     let mut f = examine::<N, H>(t, w, exp, mode);
+                    if f.is_none() {
+                        f = examine::<N, H>(t, wd, exp, mode);
+                    }
                     let mut k = 0;
                     while f.is_none() && k < cfg.orders {
                         let pi = mix2(seed ^ (0x51_0000 + k as u64), p) % nfact;
@@ -381,7 +390,7 @@ fn scan<const N: usize, H: HandN<N>>(run: &mut Run, mode: Mode, cfg: &ScanCfg) -
     );
     let complete = cfg.stratum == 1;
     let gname = format!(
-        "{}-card subsets{}, canonical order (all entries) + {} seeded orders",
+        "{}-card subsets{}, ascending + descending slot order (all entries) + {} seeded orders",
         N,
         if complete { String::new() } else { format!(" (seeded 1-in-{} stratum)", cfg.stratum) },
         cfg.orders
@@ -502,17 +511,155 @@ fn all_orders<const N: usize, H: HandN<N>>(run: &mut Run, mode: Mode, hands: u32
 }
 
 // ---------------------------------------------------------------------------------------------
+// purity: ranking is a function of the hand alone (no state may leak between calls)
+
+/// a neighbour of hand `c` (ascending ci): same shape, different cards
+fn neighbour<const N: usize>(c: &[u8; N], kind: u8, param: u64) -> [u8; N] {
+    let mut out = *c;
+    match kind % 5 {
+        0 => {
+            // relabel the suits
+            let p = perm_from_index::<4>(param % 24);
+            for x in out.iter_mut() {
+                *x = (*x & !3) | p[(*x & 3) as usize];
+            }
+        }
+        1 => {
+            // replace one card by a card not in the hand
+            let slot = (param % N as u64) as usize;
+            let mut cand = ((param >> 8) % 52) as u8;
+            while c.contains(&cand) {
+                cand = (cand + 1) % 52;
+            }
+            out[slot] = cand;
+        }
+        2 => {
+            // move one rank group (all cards of a present rank) to an absent rank, suits kept
+            let present: Vec<u8> = (0..13u8).filter(|r| c.iter().any(|x| x >> 2 == *r)).collect();
+            let absent: Vec<u8> = (0..13u8).filter(|r| !present.contains(r)).collect();
+            if !absent.is_empty() {
+                // prefer a rank held more than once
+                let multi: Vec<u8> = present.iter().copied().filter(|r| c.iter().filter(|x| **x >> 2 == *r).count() > 1).collect();
+                let pool = if multi.is_empty() { &present } else { &multi };
+                let from = pool[(param % pool.len() as u64) as usize];
+                let to = absent[((param >> 8) % absent.len() as u64) as usize];
+                for x in out.iter_mut() {
+                    if *x >> 2 == from {
+                        *x = (to << 2) | (*x & 3);
+                    }
+                }
+            }
+        }
+        3 => {
+            // rotate all ranks
+            let k = 1 + (param % 12) as u8;
+            for x in out.iter_mut() {
+                *x = (((*x >> 2) + k) % 13) << 2 | (*x & 3);
+            }
+        }
+        _ => {
+            // same cards, two slots swapped (a different array, same hand)
+            let i = (param % N as u64) as usize;
+            let j = ((param >> 8) % N as u64) as usize;
+            out.swap(i, j);
+        }
+    }
+    out
+}
+
+/// rank the hands of `seq` in order, on this thread, and compare every call with the model
+fn sequence_check<const N: usize, H: HandN<N>>(seq: &[[u8; N]]) -> Result<(), String> {
+    let t = poker::tables();
+    for (i, c) in seq.iter().enumerate() {
+        let exp = poker::best_direct(t, c);
+        let w = words_of_ci(c);
+        let got = guard(|| H::hrv(w));
+        if got != Ok(exp) {
+            let before: Vec<String> = seq[..i].iter().map(|h| card::render_hand(&words_of_ci(h))).collect();
+            return Err(format!(
+                "call {} of a sequence of {}::hand_rank_value calls: [{}] returned {:?}, the best five-card hand it contains has ordinal {} (calls before it: {})",
+                i + 1,
+                H::NAME,
+                card::render_hand(&w),
+                got,
+                exp,
+                if before.is_empty() { "none".to_string() } else { before.join(" ; ") }
+            ));
+        }
+    }
+    Ok(())
+}
+
+fn purity<const N: usize, H: HandN<N>>(run: &mut Run) -> PResult {
+    let total = choose(52, N as u64);
+    let cases: u32 = if run.tier == Tier::Thorough { 2_000_000 } else { 200_000 };
+    let st = engine::RStats::new();
+    let make = || (0..total, 0u8..5, proptest::prelude::any::<u64>(), 0u8..5, proptest::prelude::any::<u64>());
+    let build = |(idx, k1, p1, k2, p2): (u64, u8, u64, u8, u64)| -> Vec<[u8; N]> {
+        let a = unrank::<N>(52, idx);
+        let b = neighbour(&a, k1, p1);
+        let c = neighbour(&b, k2, p2);
+        vec![a, b, a, c, b, a]
+    };
+    // one shard: the point is back-to-back calls on one thread
+    let res = pt::run(run.seed, 0x9E0 + N as u64, cases, &make(), |v| {
+        let seq = build(v);
+        st.note(mix2(v.0, mix2(v.2 ^ v.1 as u64, v.4 ^ v.3 as u64)), true, Some(&format!("neighbour kinds {} then {}", v.1, v.3)), || json!({"sequence": seq.iter().map(|h| card::render_hand(&words_of_ci(h))).collect::<Vec<_>>()}));
+        sequence_check::<N, H>(&seq).map_err(|e| {
+            st.freeze();
+            e
+        })
+    });
+    st.flush(run, &format!("{}-card call sequences over neighbour hands (A B A C B A)", N), "proptest (histories)", None, "neighbours: suits relabelled, one card replaced, a rank group moved to an absent rank, all ranks rotated, two slots swapped; every call compared with the model");
+    if let Err(f) = res {
+        let seq = build(f.value);
+        // shortest failing prefix, then drop calls that are not needed
+        let mut cur: Vec<[u8; N]> = seq.clone();
+        for n in 1..=seq.len() {
+            if sequence_check::<N, H>(&seq[..n]).is_err() {
+                cur = seq[..n].to_vec();
+                break;
+            }
+        }
+        let mut i = 0;
+        while cur.len() > 1 && i + 1 < cur.len() {
+            let mut cand = cur.clone();
+            cand.remove(i);
+            if sequence_check::<N, H>(&cand).is_err() {
+                cur = cand;
+            } else {
+                i += 1;
+            }
+        }
+        let m = sequence_check::<N, H>(&cur).err().unwrap_or_else(|| "not reproducible".into());
+        let hands: Vec<Value> = cur.iter().map(|h| hand_json(&words_of_ci(h))).collect();
+        let sig = cur.iter().map(|h| card::render_hand(&words_of_ci(h))).collect::<Vec<_>>().join(" ; ");
+        return run.violation("C02.sequence", &sig, json!({"size": N, "sequence": hands}), &m);
+    }
+    Ok(())
+}
+
+// ---------------------------------------------------------------------------------------------
 // C02
 
 pub fn run_c02(run: &mut Run) -> PResult {
     run.rule = "every 6-card subset and (quick: a seeded 1-in-8 stratum of / thorough: every) 7-card subset of the deck in canonical (ascending) slot order through all five entry points, plus seeded slot orders per hand, plus random hands under every slot order; expected = min ordinal over all five-subsets (model) which must also equal a direct rule-based n-card evaluation. Non-trivial = the best hand is not simply the first five slots; distinct = distinct subsets".into();
     run.assume("model self-checked: best-hand category frequencies equal the published 6- and 7-card counts whenever the enumeration is complete");
     let thorough = run.tier == Tier::Thorough;
+    let twin = run.is_twin();
     super::regress::replay_dir(run, "C02", check_case_c02)?;
+    if !twin {
+        // first: ranking must be a function of the hand alone (a leak of state between calls would
+        // make every later enumeration result depend on scheduling)
+        purity::<6, H6>(run)?;
+        purity::<7, H7>(run)?;
+    }
     scan::<6, H6>(run, Mode::Value, &ScanCfg { stratum: 1, orders: if thorough { 4 } else { 1 } })?;
-    scan::<7, H7>(run, Mode::Value, &ScanCfg { stratum: if thorough { 1 } else { 8 }, orders: if thorough { 4 } else { 1 } })?;
-    all_orders::<6, H6>(run, Mode::Value, if thorough { 400_000 } else { 40_000 })?;
-    all_orders::<7, H7>(run, Mode::Value, if thorough { 80_000 } else { 8_000 })?;
+    scan::<7, H7>(run, Mode::Value, &ScanCfg { stratum: if thorough { 1 } else if twin { 32 } else { 8 }, orders: if thorough { 4 } else { 1 } })?;
+    if !twin {
+        all_orders::<6, H6>(run, Mode::Value, if thorough { 400_000 } else { 40_000 })?;
+        all_orders::<7, H7>(run, Mode::Value, if thorough { 80_000 } else { 8_000 })?;
+    }
     run.exhaustive = thorough;
     run.exhaustive_note = if thorough {
         "all six- and all seven-card subsets in canonical order; slot orders are sampled (4 seeded per hand + all orders for a random sample)".into()
@@ -524,6 +671,21 @@ pub fn run_c02(run: &mut Run) -> PResult {
 
 pub fn check_case_c02(clause: &str, case: &Value) -> Result<(), String> {
     let t = poker::tables();
+    if clause == "C02.sequence" {
+        let mut seq6: Vec<[u8; 6]> = Vec::new();
+        let mut seq7: Vec<[u8; 7]> = Vec::new();
+        for h in case["sequence"].as_array().ok_or("sequence")? {
+            let ws = engine::parse_words(&h["words"])?;
+            let cis = cis_of(&ws)?;
+            match cis.len() {
+                6 => seq6.push(core::array::from_fn(|i| cis[i])),
+                7 => seq7.push(core::array::from_fn(|i| cis[i])),
+                n => return Err(format!("size {}", n)),
+            }
+        }
+        sequence_check::<6, H6>(&seq6)?;
+        return sequence_check::<7, H7>(&seq7);
+    }
     if clause != "C02.value" {
         return Err(format!("unknown clause {}", clause));
     }
@@ -617,10 +779,13 @@ pub fn run_c03(run: &mut Run) -> PResult {
         s.sort_unstable_by(|a, b| b.cmp(a));
         run.violation("C03.identity", &card::render_hand(&s), hand_json(w), msg)?;
     }
+    let twin = run.is_twin();
     scan::<6, H6>(run, Mode::Witness, &ScanCfg { stratum: 1, orders: if thorough { 4 } else { 1 } })?;
-    scan::<7, H7>(run, Mode::Witness, &ScanCfg { stratum: if thorough { 1 } else { 8 }, orders: if thorough { 4 } else { 1 } })?;
-    all_orders::<6, H6>(run, Mode::Witness, if thorough { 400_000 } else { 40_000 })?;
-    all_orders::<7, H7>(run, Mode::Witness, if thorough { 80_000 } else { 8_000 })?;
+    scan::<7, H7>(run, Mode::Witness, &ScanCfg { stratum: if thorough { 1 } else if twin { 32 } else { 8 }, orders: if thorough { 4 } else { 1 } })?;
+    if !twin {
+        all_orders::<6, H6>(run, Mode::Witness, if thorough { 400_000 } else { 40_000 })?;
+        all_orders::<7, H7>(run, Mode::Witness, if thorough { 80_000 } else { 8_000 })?;
+    }
     run.exhaustive = thorough;
     run.exhaustive_note = if thorough { "all five-card hands x 120 orders; all six- and seven-card subsets in canonical order; other slot orders sampled".into() } else { "all five-card hands x 120 orders; all six-card subsets; seven-card subsets: seeded 1-in-8 stratum".into() };
     Ok(())
@@ -811,7 +976,7 @@ pub fn run_c09(run: &mut Run) -> PResult {
     if let Some((w, v, subs)) = &a6.sample {
         run.sample(json!({"cards": card::render_hand(w), "six_value": v, "five_values_leaving_out_each_slot": subs}));
     }
-    let stratum = if thorough { 1 } else { 8 };
+    let stratum = if thorough { 1 } else if run.is_twin() { 32 } else { 8 };
     let a7 = par_tuples::<7, A9>(52, true, || A9 { hands: 0, improved: 0, spare: [0; 8], fail: None, sample: None }, |acc, c| {
         if stratum > 1 && mix2(seed ^ 0x77, pack(c)) % stratum != 0 {
             return true;
